@@ -61,8 +61,9 @@ def stages(tier, rng, only=None):
                                     ac.TINY, False), _nt_part, partrun.init, aux=aux))
     lexd = grids.datasets(3, 2)[::4] + [ac.cyclic_dataset(rng, 3, 5, incomplete=k % 2 == 1) for k in range(nq)] \
         + [ac.cycle_plus(rng) for _ in range(nq // 2)]
-    out.append(ac.stage("lexicographic_penalties", PID, lambda: ac.lex_cases(lexd, PARCONS + ["ExactPulp", "BioConsert"]),
-                        _nt_run))
+    # the free solver cannot resolve relative differences of 6e-11: the ParCons runs use the CPLEX stand-in here
+    out.append(ac.stage("lexicographic_penalties", PID, lambda: ac.lex_cases(lexd, PARCONS, env="standin")
+                        + ac.lex_cases(lexd, ["BioConsert", "ExactCplex(opt)", "ExactOptim1"]), _nt_run))
 
     def lex_parts():
         cs = _cases(lexd, [ac.PRESET[0]], False)
